@@ -596,3 +596,18 @@ mutant(
     ),
 )
 mutant("M89-regular-planner-align-hoisted", ["C05"], "RECHUNK-GRID-1", ("cubed/core/rechunk.py", "        read_chunks = _fix_copy_chunks(\n            shape, read_chunks, (stage_chunks + [write_chunks])[0]\n        )\n", "        read_chunks = _fix_copy_chunks(shape, read_chunks, write_chunks)\n"))
+
+mutant(
+    "M90-resume-any-output-via-helper",
+    ["C09"],
+    "RESUME-ALL-1",
+    (PLAN, "    for output in dag.successors(name):\n        target = nodes[output].get(\"target\", None)\n        if target is not None:\n            try:\n                target = open_if_lazy_zarr_array(target)\n                if not hasattr(target, \"nchunks_initialized\"):\n                    raise NotImplementedError(\n                        f\"Zarr array type {type(target)} does not support resume since it doesn't have a 'nchunks_initialized' property\"\n                    )\n                # this check can be expensive since it has to list the directory to find nchunks_initialized\n                if target.ndim == 0 or target.nchunks_initialized != target.nchunks:\n                    return False\n            except ArrayNotFoundError:\n                return False\n    return True\n", "    targets = [nodes[o].get(\"target\", None) for o in dag.successors(name)]\n    return any(_complete(t) for t in targets if t is not None)\n\n\ndef _complete(target):\n    try:\n        target = open_if_lazy_zarr_array(target)\n        if not hasattr(target, \"nchunks_initialized\"):\n            raise NotImplementedError(\"no nchunks_initialized\")\n        return target.ndim != 0 and target.nchunks_initialized == target.nchunks\n    except ArrayNotFoundError:\n        return False\n"),
+)
+benign(
+    "B-resume-all-via-helper",
+    ["C09"],
+    (PLAN, "    for output in dag.successors(name):\n        target = nodes[output].get(\"target\", None)\n        if target is not None:\n            try:\n                target = open_if_lazy_zarr_array(target)\n                if not hasattr(target, \"nchunks_initialized\"):\n                    raise NotImplementedError(\n                        f\"Zarr array type {type(target)} does not support resume since it doesn't have a 'nchunks_initialized' property\"\n                    )\n                # this check can be expensive since it has to list the directory to find nchunks_initialized\n                if target.ndim == 0 or target.nchunks_initialized != target.nchunks:\n                    return False\n            except ArrayNotFoundError:\n                return False\n    return True\n", "    targets = [nodes[o].get(\"target\", None) for o in dag.successors(name)]\n    return all(_complete(t) for t in targets if t is not None)\n\n\ndef _complete(target):\n    try:\n        target = open_if_lazy_zarr_array(target)\n        if not hasattr(target, \"nchunks_initialized\"):\n            raise NotImplementedError(\"no nchunks_initialized\")\n        return target.ndim != 0 and target.nchunks_initialized == target.nchunks\n    except ArrayNotFoundError:\n        return False\n"),
+)
+mutant("M91-twin-entry-popped-alone", ["C08"], "MAP-TWIN-SYM-1", (ASYNC, "                backup = backups.get(task, None)\n                if backup:\n                    if not backup.done() or not backup.exception():\n                        continue", "                backup = backups.pop(task, None)\n                if backup:\n                    if not backup.done() or not backup.exception():\n                        continue"))
+mutant("M92-accum-order-swapped-dict-branch", ["C01"], "ACCUM-ORDER-1", (OPS, "                k: nxp.concat([result[k], reduced_chunk[k]], axis=axis[0])", "                k: nxp.concat([reduced_chunk[k], result[k]], axis=axis[0])"))
+mutant("M93-region-offsets-stale-chunk", ["C11"], "STORE-GUARD-1", (OPS, "        block_offsets = [\n            (0 if sl.start is None else sl.start // cs)\n            for sl, cs in zip(region, chunks)\n        ]", "        block_offsets = [(sl.start or 0) // cs for sl in region]"))
